@@ -386,6 +386,17 @@ def c16_codecs(r, seed, tier, model_ok):
             bs = v.to_bytes(w, "big" if order == "be" else "little", signed=signed); want.append("V " + fmtb(bs))
             cases.append(dict(text=f"({E(v)} {c} ㅎㄴ) {c} ㅎㄴ", trace=False)); want.append(f"V {v}"); kinds["int-roundtrip"] += 1
         else: want.append("E 5,-39")
+    # DECODING ignores the codec's width: a byte string of ANY length is read in the requested order (little-endian when none is requested) -
+    # widths 1..4 (width 1 with an explicit big-endian order included) x lengths 0..5 that differ from the width, both signednesses
+    for w in (1, 1, 2, 3, 4, 8):
+        for signed in (False, True):
+            for order in (None, "le", "be"):
+                for _ in range(N(tier, 4, 20)):
+                    ln = R.choice([x for x in (0, 1, 2, 3, 5, 9) if x != w]); bs = bytes(R.randrange(256) for _ in range(ln))
+                    if ln >= 2 and R.random() < .4: bs = bytes([R.choice([0x80, 0xFF, 0x01])]) + bs[1:-1] + bytes([R.choice([0x00, 0x7F, 0x80])])      # sign bit at one end only
+                    c = codec(2 if signed else 1, w, order)
+                    lit = f"({E(int.from_bytes(bs, 'little'))} ㄴ {E(len(bs))} ㅂ ㅂ ㅂㅎㄷ ㅎㄷ ㅎㄴ)" if bs else "(ㄱ ㄴ ㄱ ㅂ ㅂ ㅂㅎㄷ ㅎㄷ ㅎㄴ)"
+                    cases.append(dict(text=f"{lit} {c} ㅎㄴ", trace=False)); want.append(f"V {int.from_bytes(bs, 'big' if order == 'be' else 'little', signed=signed)}"); kinds["int-decode-any-length"] += 1
     strs = []
     for _ in range(N(tier, 1500, 40000)):
         s = "".join(chr(R.choice([R.randrange(0x20, 0x7F), R.randrange(0x80, 0x800), R.randrange(0x800, 0xD800), R.randrange(0xE000, 0x10000), R.randrange(0x10000, 0x110000), 0x7F, 0x80, 0x7FF, 0x800, 0xFFFF, 0x10000, 0x10FFFF, 0xFEFF, 0xFFFE, 0])) for _ in range(R.randrange(0, 8)))
@@ -621,6 +632,21 @@ def c18_print(r, seed, tier, model_ok):
             z = f"({part()} {part()} ㅂㅅㅎㄷ)"; k = Rc.random()
             cc.append(dict(text=z if k < .6 else f"{z} {part()} ㅁㄹㅎㄷ" if k < .8 else f"{z} {E(1)} ㅅㅈㅎㄷ", floats=True, trace=False))
         ca = impl_run(cc); cb = model_run(cc, tlimit=10); dist2, bad3 = compare(cc, ca, cb, fields=("res",), norm=nrm)
+        # ONE container object holding an I/O action, reached several times in the printed value: printing executes the action each time it is met
+        # (every occurrence reads its own line / writes again), and a container that was earlier named in a caught not-found message prints as ever
+        sc = []
+        ACTS = ["(ㄹㅎㄱ)", "(ㄴ ㅁㅈㅎㄴ ㅈㄹㅎㄴ)", "(ㄷ ㄱㅅㅎㄴ)", "((ㄹㅎㄱ) (ㄱㅇㄱ ㄱㅅㅎㄴ ㅎ) ㄱㄹㅎㄷ)"]
+        for _ in range(N(tier, 150, 2000)):
+            a_ = Rc.choice(ACTS); k = Rc.random()
+            L = f"({a_} ㅁㄹㅎㄴ)" if k < .4 else f"({E(1)} {a_} ㅁㄹㅎㄷ)" if k < .6 else f"({a_} ㄷㅂㅎㄴ)" if k < .75 else f"({E(0)} {a_} ㅅㅈㅎㄷ)"
+            uses = " ".join(["ㄱㅇㄱ"] * Rc.choice([2, 2, 3])); m_ = len(uses.split()); shape = Rc.random()
+            if shape < .5: t = f"{L} (({uses} ㅁㄹㅎ{E(m_)}) ㅎ) ㅎㄴ"
+            elif shape < .7: t = f"{L} ((ㄱㅇㄱ (ㄱㅇㄱ ㅁㄹㅎㄴ) ㅁㄹㅎㄷ) ㅎ) ㅎㄴ"
+            elif shape < .85: t = f"{L} (((ㄱㅇㄱ (ㅅㅈㅎㄱ) ㅎㄴ) (ㄱ ㅎ) ㅅㄷㅎㄷ) ㄱㅇㄱ ㅁㄹㅎㄷ ㅎ) ㅎㄴ"          # first looked up in an empty dictionary (caught not-found, whose message shows the key), then printed
+            else: t = f"{L} ((ㄱㅇㄱ ㄱㅇㄱ ㄴㅎㄷ) ㄱㅇㄱ ㅁㄹㅎㄷ ㅎ) ㅎㄴ"                                              # first compared with itself, then printed
+            sc.append(dict(text=t, stdin=["a", "b", "c", "d"][:Rc.randrange(0, 5)], floats=True))
+        sa = impl_run(sc); sb = model_run(sc, tlimit=10); dist3, bad4 = compare(sc, sa, sb, fields=("res", "out", "rest"), norm=nrm)
+        r.slice("shared_containers_with_actions_vs_model", len(sc), len({c["text"] for c in sc}), [sc[0]["text"]], dict(outcomes=dict(dist3)), "one list / exception / dictionary holding an action, used 2-3 times in the printed value (or first in a caught failure / a comparison): result, output and input left vs the model", bad4)
         r.slice("complex_printing_vs_model", len(cc), len({c["text"] for c in cc}), [cc[0]["text"]], dict(outcomes=dict(dist2)), "complex numbers with parts on both sides of the print tolerances, zeros of both signs, infinities, huge values: printed form vs Float.show_complex", bad3)
 
 def c18_cli(r, seed, tier, model_ok):
@@ -742,7 +768,19 @@ def c02_callables(r, seed, tier, model_ok):
                 "collect-then-spread": lambda i: f"{lit} ((({E(i)} ㄱㅇㄱ ㅎㄴ ㅎ) ㅂㅂㅎㄴ) ㅁㅂㅎㄴ) ㅎㄴ"}
         for nm, f in prod.items():
             for i in range(-ln - 2, ln + 2): add(f(i), f"V {xs[i]}" if -ln <= i < ln else "E 5,-5", "called-" + nm)
-    # argument references: a function given k arguments, position p from -k-2 .. k+1 (literal and computed), the reference standing as the body,
+    # only an integer LITERAL written in a function position names a built-in; an integer that ARRIVES there - through an argument reference, one or
+    # two functions deep, or computed - is an integer and cannot be called (type error), whatever slot of whatever higher-order built-in it reaches
+    SLOTS = {"pipe": lambda f: f"ㄹ ㅁ ({f} ㄴㄱㅎㄴ) ㅎㄷ", "pipe-2": lambda f: f"ㄹ ㅁ ({f} (ㄱㅇㄱ ㅎ) ㄴㄱㅎㄷ) ㅎㄷ", "collect": lambda f: f"(ㄹ ㅁ ㅁㄹㅎㄷ) ({f} ㅁㅂㅎㄴ) ㅎㄴ",
+             "spread": lambda f: f"ㄹ ㅁ ({f} ㅂㅂㅎㄴ) ㅎㄷ", "map": lambda f: f"(ㄹ ㅁ ㅁㄹㅎㄷ) {f} ㅁㄷㅎㄷ", "filter": lambda f: f"(ㄹ ㅁ ㅁㄹㅎㄷ) {f} ㅅㅂㅎㄷ",
+             "fold": lambda f: f"{f} ㄱ (ㄹ ㅁ ㅁㄹㅎㄷ) ㅅㄹㅎㄹ", "try-handler": lambda f: f"(ㄱ ㄷㅂㅎㄴ ㄷㅈㅎㄴ) {f} ㅅㄷㅎㄷ", "bind-continuation": lambda f: f"(ㄹ ㄱㅅㅎㄴ) {f} ㄱㄹㅎㄷ",
+             "call": lambda f: f"ㄹ ㅁ {f} ㅎㄷ"}
+    for nm, slot in SLOTS.items():
+        for lit in ("ㄷ", "ㄱ", "ㅁㄹ", "ㅈㄷ"):          # built-in names: add, multiply, list, length
+            direct = slot(lit); r0 = vlib.impl_run([dict(text=direct, trace=False)])[0]
+            for via, prog in (("argument", f"{lit} ({slot('ㄱㅇㄱ')} ㅎ) ㅎㄴ"), ("outer-argument", f"{lit} (({slot('ㄱㅇㄴ')} ㅎ) ㅎㄱ ㅎ) ㅎㄴ"),
+                              ("forwarded-twice", f"{lit} (ㄱㅇㄱ ({slot('ㄱㅇㄱ')} ㅎ) ㅎㄴ ㅎ) ㅎㄴ"), ("computed", slot(f"({lit} ㄱ ㄷㅎㄷ)"))):
+                add(prog, "E 5,0", f"integer-in-function-slot-{nm}-{via}")
+
     # as an argument of a user function / Boolean / built-in, inside an inner function (outer arguments), and used twice by the callee
     for k in range(0, 4):
         for _ in range(N(tier, 3, 12)):
